@@ -208,6 +208,30 @@ theorem newComplementor_pairing {n : Nucleic} {g a : UInt8} {cased : Bool} {ls :
     · injection h with h; subst h; exact ⟨rfl, hA⟩
     · cases h
 
+/-- The acceptance test of `NewComplementor` never fails: a letter without a pairing keeps
+    itself as complement (so `i&0x7f == v&0x7f`), a letter with one has `ok = true`, and either
+    makes the first conjunct of the test false.  `NewComplementor` therefore accepts every
+    pairing `NewPairing` accepts, whatever the alphabet — which is why "valid letters go to valid
+    letters" and "case preserving" are *not* theorems about arbitrary complementors (witnesses
+    below); they are proved for the built-ins (`builtin_laws`). -/
+theorem newComplementor_accepts_every_pairing {ls : List UInt8} {g a : UInt8} {cased : Bool} {A : Alpha}
+    (hp : newPairing s c = .ok p) (hA : newAlphabet ls g a cased = .ok A) :
+    newComplementor ls p g a cased = .ok { alpha := A, pairing := p } := by
+  obtain ⟨_, _, _, hpair, hok, _, _⟩ := newPairing_ok hp
+  have hall : allBytes.all (pairAcceptable A p) = true := by
+    rw [List.all_eq_true]
+    intro i _
+    simp only [pairAcceptable]
+    cases hoki : p.ok i with
+    | true => simp
+    | false =>
+      have : p.pair i = i := by
+        rw [hok] at hoki
+        have := (fillPairs_ok_false s c initPairs i hoki).1
+        rw [hpair]; simpa [pairTable, initPairs] using this
+      simp [this]
+  simp [newComplementor, hA, hall]
+
 /-- "constructors reject non-ASCII definitions" -/
 theorem rejects_nonASCII (ls : List UInt8) (g a : UInt8) (cased : Bool) (p : Pairing)
     (h : ∃ b ∈ ls, b ≥ 128) :
@@ -302,5 +326,19 @@ example : (match newPairing [97, 116] [116, 97] with | .ok p => p.pair 97 == 116
     (match newPairing [97, 98] [99, 99] with | .error e => e == .notBijection | .ok _ => false) = true ∧
     (match newPairing [97, 98, 99] [98, 99, 97] with | .error e => e == .notBijection | .ok _ => false) = true := by
   decide +kernel
+
+/-- Not general (refutation witnesses on the model, replayed on the implementation by the `nc`
+    corpus lines): the alphabet "ab" with the accepted pairing a↔c is accepted, `a` is valid and
+    its complement `c` is not; the accepted pairing a↔G is not case preserving. -/
+theorem complement_valid_not_general :
+    (match newPairing [97, 99] [99, 97] with
+     | .ok p =>
+       (match newComplementor [97, 98] p 45 110 true with
+        | .ok n => n.alpha.isValid 97 && !n.alpha.isValid (n.pairing.complement 97).1
+        | .error _ => false)
+     | .error _ => false) = true ∧
+    (match newPairing [97, 71] [71, 97] with
+     | .ok p => isLowerB 97 && !isLowerB (p.complement 97).1
+     | .error _ => false) = true := by decide +kernel
 
 end Biogo.Properties.C17
